@@ -37,6 +37,9 @@ func TestReplayC03(t *testing.T) { runReplay(t, "C03", checkC03) }
 func TestC09(t *testing.T) {
 	runProp(t, "C09", checkC09, func(t *rapid.T) *Case {
 		c := genTrieCase(t, trieGenOpt{needVals: true})
+		if pickU(t, "legacy?", 6) == 0 {
+			forceLegacy(t, c)
+		}
 		return c
 	})
 }
@@ -45,6 +48,9 @@ func TestReplayC09(t *testing.T) { runReplay(t, "C09", checkC09) }
 func TestC10(t *testing.T) {
 	runProp(t, "C10", checkC10, func(t *rapid.T) *Case {
 		c := genTrieCase(t, trieGenOpt{})
+		if pickU(t, "legacy?", 6) == 0 {
+			forceLegacy(t, c)
+		}
 		genExtra(t, c)
 		return c
 	})
@@ -69,6 +75,9 @@ func TestC14(t *testing.T) {
 			// undo the I32 weighting of genEnc for this property
 			c.Enc = rapid.SampledFrom(intEncs).Draw(t, "enc2")
 			c.Vals, _ = genVals(t, len(c.Keys), c.Enc, false)
+		}
+		if pickU(t, "legacy?", 6) == 0 {
+			forceLegacy(t, c)
 		}
 		genExtra(t, c)
 		return c
